@@ -42,6 +42,8 @@ EventFlags(e) ==
          \cup Flag(e.ires = "ok" /\ ToSet(e.items) = Pairs(content) /\ Len(e.items) = Cardinality(DOMAIN content)
                    /\ e.ires2 = "ok" /\ ToSet(e.items2) = Pairs(content) /\ e.hasmissing = "false", "repaircontent")
          \cup Flag(e.donorOK, "donorchanged")
+         \* what the repaired trie then saves arrives under the hash of its own content (C14, nodes of foreign origin)
+         \cup Flag(e.savedOK, "savedkeys")
          \cup Flag(e.keysOK, "repairkeys")
     [] OTHER -> {"unknown-op"}
 
